@@ -130,6 +130,8 @@ func progReadMetas(env *fw.Env) []progMeta {
 
 var reBuildPkg = regexp.MustCompile(`(?m)^# ` + progModule + `/lib/(\S+)`)
 
+var reLoadErr = regexp.MustCompile(`(?m)^package ` + progModule + `/lib/(\S+)\n\t.*$`)
+
 func goCmd(dir string, args ...string) (string, error) {
 	cmd := exec.Command("go", args...)
 	cmd.Dir = dir
@@ -142,7 +144,10 @@ func goCmd(dir string, args ...string) (string, error) {
 
 // progBuildAll compiles every package under lib/ (collecting the compiler's complaints per package), then links
 // the ones that compiled into one dispatcher binary bin/disp.
-func progBuildAll(env *fw.Env) (failed map[string]string, err error) {
+func progBuildAll(env *fw.Env) (failed map[string]string, err error) { return progBuild(env, true) }
+
+// progBuild: link=false stops after compiling the packages.
+func progBuild(env *fw.Env, link bool) (failed map[string]string, err error) {
 	dir := filepath.Join(env.Scratch, "mod")
 	failed = map[string]string{}
 	text, runErr := goCmd(dir, "build", "./lib/...")
@@ -156,8 +161,34 @@ func progBuildAll(env *fw.Env) (failed map[string]string, err error) {
 			failed[text[m[2]:m[3]]] = strings.TrimSpace(text[m[0]:end])
 		}
 		if len(failed) == 0 {
-			return failed, fmt.Errorf("go build failed: %s", clipS(text, 2000))
+			// load errors (bad imports) abort the whole build: drop those packages and try once more
+			dropped := false
+			for _, m := range reLoadErr.FindAllStringSubmatch(text, -1) {
+				failed[m[1]] = "not buildable in the scratch module: " + strings.TrimSpace(m[0])
+				os.RemoveAll(filepath.Join(dir, "lib", m[1]))
+				dropped = true
+			}
+			if !dropped {
+				return failed, fmt.Errorf("go build failed: %s", clipS(text, 2000))
+			}
+			text2, err2 := goCmd(dir, "build", "./lib/...")
+			if err2 != nil {
+				locs := reBuildPkg.FindAllStringSubmatchIndex(text2, -1)
+				if len(locs) == 0 {
+					return failed, fmt.Errorf("go build failed: %s", clipS(text2, 2000))
+				}
+				for i, m := range locs {
+					end := len(text2)
+					if i+1 < len(locs) {
+						end = locs[i+1][0]
+					}
+					failed[text2[m[2]:m[3]]] = strings.TrimSpace(text2[m[0]:end])
+				}
+			}
 		}
+	}
+	if !link {
+		return failed, nil
 	}
 	ents, _ := os.ReadDir(filepath.Join(dir, "lib"))
 	var b strings.Builder
